@@ -538,6 +538,53 @@ def m_map_ops(I, st, info, args, depth):
     return None
 
 
+@imodel(r"^(%s)::entry$" % MAPT)
+def m_map_entry(I, st, info, args, depth):
+    m = deref(I, st, args[0])
+    if not is_map(m):
+        return None
+    return ret(st, Struct("EntryV", None, {"map": I.resolve(st, args[0]), "key": args[1]}))
+
+
+@imodel(r"^(std::collections::hash::map|serde_json::map)::Entry::<.*>::(or_insert|or_insert_with|or_insert_with_key|or_default|key)$")
+def m_entry_ops(I, st, info, args, depth):
+    """entry(k).or_insert(v) / .or_insert_with(f): an occupied entry keeps its value, a vacant one receives the new value"""
+    en = deref(I, st, args[0])
+    if not (isinstance(en, Struct) and en.adt == "EntryV"):
+        return None
+    op = info["tdef"].split("::")[-1]
+    p, k = en.fields["map"], en.fields["key"]
+    if op == "key":
+        return ret(st, Ptr(st.new_cell(k), ()))
+    m = deref(I, st, p)
+    if not is_map(m):
+        return None
+    e, decided = map_get(I, st, m, k)
+    if not decided:
+        st.notes.append("undecided: lookup of %r in %s" % (deref(I, st, k), m.fields["name"].s))
+    st.events.append(("map_entry", m.fields["name"].s, str_key(I, st, k), e is not None))
+    if e is not None:
+        return ret(st, Ptr(st.new_cell(e.fields["1"]), ()))
+    if op == "or_insert":
+        vals = [(st, "return", args[1])]
+    elif op == "or_default":
+        return None
+    else:
+        vals = I.call_value(st, args[1], [k] if op == "or_insert_with_key" else [], depth)
+    out = []
+    for s2, kind, v in vals:
+        if kind != "return":
+            out.append((s2, kind, v))
+            continue
+        m_now = deref(I, s2, p)
+        kk = deref(I, s2, k)
+        m2 = map_insert(I, s2, m_now, kk if not isinstance(kk, Struct) else k, v)
+        if isinstance(p, Ptr):
+            I.store_to(s2, p, m2)
+        out.append((s2, "return", Ptr(s2.new_cell(v), ())))
+    return out
+
+
 @imodel(r"^core::ops::index::Index::index$")
 def m_map_index(I, st, info, args, depth):
     m = deref(I, st, args[0])
